@@ -201,6 +201,9 @@ class Evaluator:
                 if not nonzero and not any(e.key() == key for e in self.eqs):
                     self.eqs.append(d)
             return nonzero if k == "ne" else not nonzero
+        if k in ("lt", "le", "gt", "ge") and self.is_int(t[1]) and self.is_int(t[2]):
+            a, b = self.ival(t[1]), self.ival(t[2])
+            return {"lt": a < b, "le": a <= b, "gt": a > b, "ge": a >= b}[k]
         if k in ("lt", "le", "gt", "ge"):
             # e.g. the dtype switch `largest > 1e38`: an uninterpreted boolean, both outcomes are explored
             key = ("uninterpreted", id(t))
